@@ -250,9 +250,10 @@ def run(tier, seed):
             for lo in range(0, n, 400):
                 jobs.append((name, as_inc, lo, lo + 400, False))
     if tier == 'thorough':
-        nt = len(tokens_of(PROGRAMS['tiny']))
-        for lo in range(0, 3 * nt, 4):
-            jobs.append(('tiny', False, lo, lo + 4, True))
+        for prog in ('tiny', 'inc', 'ttc'):
+            nt = len(tokens_of(PROGRAMS[prog]))
+            for lo in range(0, 3 * nt, 4):
+                jobs.append((prog, False, lo, lo + 4, True))
     jobs = common.rotate(jobs, seed)
     for stats, viols in common.pmap(_job, jobs, chunksize=1):
         res.merge_counts(stats)
